@@ -3,7 +3,8 @@
 From Coq Require Import Reals ZArith List Bool Lia Lra.
 From Coquelicot Require Import Coquelicot.
 From Sky Require Import Result PyList Num NumR G_llh G_layout M_Llh S_Llh M_Layout S_Layout
-  P_Llh P_LlhValue P_LlhDeriv P_WeightsDeriv P_Layout P_LayoutDeriv.
+  M_LlhPipe M_LlhGrad S_LlhPipe S_LlhGrad
+  P_Llh P_LlhValue P_LlhDeriv P_WeightsDeriv P_Layout P_LayoutDeriv P_LlhGrad P_LlhStack P_LlhPipeGrad.
 Import ListNotations.
 
 (* ---------------------------------------------------------------- layout clause *)
@@ -146,6 +147,134 @@ Theorem C02_multi_ns : forall (erfR : R -> R) opa ns f (ds : list (R * list R)),
   is_derive (fun t => multi_value (RNum erfR) opa t f ds) ns (multi_grad_ns (RNum erfR) opa ns f ds).
 Proof. exact multi_value_ns_derive. Qed.
 Print Assumptions C02_multi_ns.
+
+(* ---------------------------------------------------------------- deepening: the parts that
+   depend on the other fit parameters through the weights and the stacked ratios *)
+
+(* the leaf hypotheses of the pipeline theorem below are supplied by the layout *)
+Theorem C02_layout_leaf : forall n (ds : list (@gdecl R)) m vec rec s name (r : nat) (f : R -> R) df (c : R) pre d post,
+  build n ds = Ok m -> create_src_params_recarray m vec = Ok rec -> (s < n)%nat -> (r < length vec)%nat ->
+  ds = pre ++ d :: post -> nm s d = Some name ->
+  is_derive f (cellval m vec s name) df ->
+  is_derive (fun t => c * f (cellval m (set_nth vec r t) s name)) (nth r vec 0)
+            (c * (if lk_is_local (Z.of_nat r) (cellkey m vec s name) then df else 0)).
+Proof. exact layout_leaf. Qed.
+Print Assumptions C02_layout_leaf.
+
+(* SourceWeightedPDFRatio.get_gradient (numpy += plumbing included) computes, event by event,
+   (-R_i A' + sum_k (a_k' R_ik + a_k R_ik')) / A, given that no (source, event) pair is listed twice *)
+Theorem C02_stacking_code : forall (erfR : R -> R) a da n_sel vals dv Ri e,
+  NoDup (map row_pair vals) -> (forall d, dv = Some d -> NoDup (map row_pair d)) ->
+  length Ri = n_sel -> (e < n_sel)%nat -> (da <> None \/ dv <> None) ->
+  nth e (sw_grad (RNum erfR) a da n_sel vals dv Ri) 0
+  = (- nth e Ri 0 * match da with Some d => Rsum d | None => 0 end
+     + Rsum (map (fun k => match da with Some d => nth k d 0 | None => 0 end * pair_lookup vals k e
+                           + nth k a 0 * match dv with Some d => pair_lookup d k e | None => 0 end)
+                 (seq 0 (length a))))
+    / Rsum a.
+Proof. exact sw_grad_spec. Qed.
+Print Assumptions C02_stacking_code.
+
+(* ... and that formula is the derivative of the stacked ratio *)
+Theorem C02_stacking_rule : forall (aks : list wfun) (rows : list (nat * nat * wfun)) (e : nat) (t0 : R),
+  List.Forall (fun a => is_derive (fst a) t0 (snd a)) aks ->
+  List.Forall (fun v => is_derive (fst (snd v)) t0 (snd (snd v))) rows ->
+  Rsum (a_at aks t0) <> 0 ->
+  is_derive (fun t => stacked_spec (a_at aks t) (rows_at rows t) e) t0
+    ((- stacked_spec (a_at aks t0) (rows_at rows t0) e * Rsum (d_of aks)
+      + Rsum (map (fun k => nth k (d_of aks) 0 * pair_lookup (rows_at rows t0) k e
+                            + nth k (a_at aks t0) 0 * pair_lookup (drows_of rows) k e)
+                  (seq 0 (length (a_at aks t0)))))
+     / Rsum (a_at aks t0)).
+Proof. exact stacking_rule. Qed.
+Print Assumptions C02_stacking_rule.
+
+(* one dataset: d/dp L_j(ns f_j(p), X(p)) = dL_j/dns_j * ns * f_j' + dL_j/dp *)
+Theorem C02_dataset_term : forall (erfR : R -> R) opa N ns (f : R -> R) df (t0 : R) (Xs : list (R -> R)) (dXs : list R),
+  0 < opa -> N <> 0 -> 0 < 1 - ns * f t0 / N -> is_derive f t0 df ->
+  List.Forall2 (fun g d => is_derive g t0 d) Xs dXs ->
+  List.Forall (fun g => ns * f t0 * g t0 <> opa - 1) Xs ->
+  is_derive (fun t => log_lambda (RNum erfR) opa N (ns * f t) (map (fun g => g t) Xs)) t0
+    (grad_ns (RNum erfR) opa N (ns * f t0) (map (fun g => g t0) Xs) * ns * df
+     + grad_p (RNum erfR) opa (ns * f t0) (combine (map (fun g => g t0) Xs) dXs)).
+Proof. exact dataset_term_derive. Qed.
+Print Assumptions C02_dataset_term.
+
+(* d/dp of the multi-dataset sum is what MultiDatasetTCLLHRatio.evaluate accumulates in grads[pmask] *)
+Theorem C02_multi_p : forall (erfR : R -> R) opa ns t0 (l : list dsfun),
+  0 < opa ->
+  List.Forall (fun d => dq_N d <> 0 /\ 0 < 1 - ns * dq_f d t0 / dq_N d /\ is_derive (dq_f d) t0 (dq_df d)
+                        /\ List.Forall2 (fun g dg => is_derive g t0 dg) (dq_R d) (dq_dR d)
+                        /\ List.Forall (fun g => ns * dq_f d t0 * Xof (dq_N d) (g t0) <> opa - 1) (dq_R d)) l ->
+  is_derive (fun t => multi_value (RNum erfR) opa ns (map (fun d => dq_f d t) l)
+                                  (map (fun d => (dq_N d, at_t (dq_R d) t)) l)) t0
+    (multi_grad_p (RNum erfR) opa ns (map (fun d => dq_f d t0) l) (map dq_df l)
+                  (map (fun d => (dq_N d, at_t (dq_R d) t0, dq_dR d)) l)).
+Proof. exact multi_value_p_derive. Qed.
+Print Assumptions C02_multi_p.
+
+(* the composed pipeline in the code's own functions: from differentiable weights a_jk(t) and table
+   ratios R_ik(t) through f_j / f_j_grad, sw_ratio / sw_grad, the single-dataset functions and the
+   multi-dataset loop, the assembled entry is the derivative of the returned value *)
+Theorem C02_pipeline : forall (erfR : R -> R) opa ns t0 (DS : list pds),
+  0 < opa -> a_tot (RNum erfR) (tab_at DS t0) <> 0 ->
+  List.Forall (fun d =>
+      List.Forall (fun a => is_derive (fst a) t0 (snd a)) (p_aks d)
+      /\ List.Forall (fun v => is_derive (fst (snd v)) t0 (snd (snd v))) (p_rows d)
+      /\ NoDup (map fst (p_rows d))
+      /\ Rsum (a_at (p_aks d) t0) <> 0
+      /\ p_N d <> 0
+      /\ 0 < 1 - ns * (Rsum (a_at (p_aks d) t0) / a_tot (RNum erfR) (tab_at DS t0)) / p_N d
+      /\ List.Forall (fun r => ns * (Rsum (a_at (p_aks d) t0) / a_tot (RNum erfR) (tab_at DS t0)) * Xof (p_N d) r <> opa - 1)
+                     (sw_ratio (RNum erfR) (a_at (p_aks d) t0) (p_nsel d) (rows_at (p_rows d) t0))) DS ->
+  is_derive
+    (fun t => multi_value (RNum erfR) opa ns
+                (f_j (RNum erfR) (map (fun d => a_at (p_aks d) t) DS))
+                (map (fun d => (p_N d, sw_ratio (RNum erfR) (a_at (p_aks d) t) (p_nsel d) (rows_at (p_rows d) t))) DS)) t0
+    (multi_grad_p (RNum erfR) opa ns
+                  (f_j (RNum erfR) (map (fun d => a_at (p_aks d) t0) DS))
+                  (f_j_grad (RNum erfR) (map (fun d => a_at (p_aks d) t0) DS) (map (fun d => d_of (p_aks d)) DS))
+                  (map (fun d => (p_N d,
+                                  sw_ratio (RNum erfR) (a_at (p_aks d) t0) (p_nsel d) (rows_at (p_rows d) t0),
+                                  sw_grad (RNum erfR) (a_at (p_aks d) t0) (Some (d_of (p_aks d))) (p_nsel d)
+                                          (rows_at (p_rows d) t0) (Some (drows_of (p_rows d)))
+                                          (sw_ratio (RNum erfR) (a_at (p_aks d) t0) (p_nsel d) (rows_at (p_rows d) t0)))) DS)).
+Proof. exact pipeline_p_derive. Qed.
+Print Assumptions C02_pipeline.
+
+(* second derivative in ns: the exact statement for every regime ... *)
+Theorem C02_d2ns_exact : forall (erfR : R -> R) opa N ns (Rs : list R) (nb : R),
+  0 < opa -> N - ns <> 0 -> N = INR (length Rs) + nb ->
+  List.Forall (fun r => ns * Xof N r <> opa - 1) Rs ->
+  is_derive (fun t => evaluate_grad_ns (RNum erfR) opa N t Rs) ns
+    (evaluate_ns_grad2 (RNum erfR) opa N ns Rs nb
+     + Rsum (map (fun r => if Rlt_dec (opa - 1) (ns * Xof N r) then 0
+                           else ev_nsgrad (RNum erfR) opa ns (Xof N r) * ev_nsgrad (RNum erfR) opa ns (Xof N r)
+                                - (Xof N r * Xof N r) / (opa * opa)) Rs)).
+Proof. exact ns_grad2_exact. Qed.
+Print Assumptions C02_d2ns_exact.
+
+(* ... in the Taylor regime calculate_ns_grad2 is NOT the derivative of the ns-gradient *)
+Theorem C02_d2ns_unstable_refuted : forall (erfR : R -> R),
+  exists opa N ns Rs nb D,
+    0 < opa /\ N - ns <> 0 /\ N = INR (length Rs) + nb
+    /\ List.Forall (fun r => ns * Xof N r < opa - 1) Rs
+    /\ is_derive (fun t => evaluate_grad_ns (RNum erfR) opa N t Rs) ns D
+    /\ D <> evaluate_ns_grad2 (RNum erfR) opa N ns Rs nb.
+Proof. exact ns_grad2_unstable_refuted. Qed.
+Print Assumptions C02_d2ns_unstable_refuted.
+
+(* ... and the multi-dataset second derivative sum_j f_j^2 (...) in the all-stable regime *)
+Theorem C02_multi_d2ns : forall (erfR : R -> R) opa ns (l : list (R * (R * list R * R))),
+  0 < opa ->
+  List.Forall (fun p => let f := fst p in let N := fst (fst (snd p)) in
+                        let Rs := snd (fst (snd p)) in let nb := snd (snd p) in
+                        N - ns * f <> 0 /\ N = INR (length Rs) + nb
+                        /\ List.Forall (fun r => opa - 1 < ns * f * Xof N r) Rs) l ->
+  is_derive (fun t => multi_grad_ns (RNum erfR) opa t (map fst l) (map (fun p => fst (snd p)) l)) ns
+            (multi_ns_grad2 (RNum erfR) opa ns (map fst l) (map snd l)).
+Proof. exact multi_ns_grad2_is_derivative. Qed.
+Print Assumptions C02_multi_d2ns.
 
 (* ---------------------------------------------------------------- non-vacuity *)
 Close Scope R_scope.
